@@ -67,8 +67,18 @@ func (p *Program) connLoops() []*ConnLoop {
 			if callee == nil || !inRepo(callee) {
 				return
 			}
-			if writers[callee] && cl.Loop != nil && cl.Loop.Blocks[c.Block()] {
-				cl.Resp = append(cl.Resp, c)
+			// a response call: a call in the loop to the response writer, or to a framework function
+			// through which the writer is reached (a helper wrapping it)
+			if cl.Loop != nil && cl.Loop.Blocks[c.Block()] && inFramework(callee) && (writers[callee] || reachesWriter(p, callee, writers)) {
+				isHandle := false
+				for _, a := range c.Common().Args {
+					if ex, ok := strip(a).(*ssa.Extract); ok && ex.Tuple == next && ex.Index == 0 {
+						isHandle = true
+					}
+				}
+				if !isHandle {
+					cl.Resp = append(cl.Resp, c)
+				}
 			}
 			for _, a := range c.Common().Args {
 				if ex, ok := strip(a).(*ssa.Extract); ok && ex.Tuple == next && ex.Index == 0 && cl.Handle == nil {
